@@ -1416,12 +1416,72 @@ class _Ctx:
 VFS = VirtualFS()
 
 
+class RangeLike:
+    """range(...) whose membership test accepts symbolic integers (one formula instead of one comparison per element); iteration,
+    len, indexing, reversal go to the real range.  A symbolic bound is enumerated only when the range is iterated."""
+    def __init__(self, *a):
+        if builtins.len(a) == 1:
+            self.start, self.stop, self.step = 0, a[0], 1
+        elif builtins.len(a) == 2:
+            self.start, self.stop, self.step = a[0], a[1], 1
+        else:
+            self.start, self.stop, self.step = a
+        if isinstance(self.step, SInt):
+            self.step = core.cur().concretize(self.step, limit=16)
+        if self.step == 0:
+            raise ValueError('range() arg 3 must not be zero')
+        self._real = None
+
+    def real(self):
+        if self._real is None:
+            ex = core.cur()
+            a = [ex.concretize(x, limit=64) if isinstance(x, SInt) else x for x in (self.start, self.stop, self.step)]
+            self.start, self.stop, self.step = a
+            self._real = builtins.range(*a)
+        return self._real
+
+    def __contains__(self, x):
+        if builtins.isinstance(x, builtins.bool) or not builtins.isinstance(x, (builtins.int, SInt)):
+            return x in self.real() if not builtins.isinstance(x, Rope) else False
+        if not builtins.any(isinstance(v, SInt) for v in (x, self.start, self.stop)):
+            return x in builtins.range(self.start, self.stop, self.step)
+        st = self.step
+        inside = s_and(x >= self.start, x < self.stop) if st > 0 else s_and(x <= self.start, x > self.stop)
+        if st in (1, -1):
+            return builtins.bool(inside)
+        return builtins.bool(s_and(inside, core.s_eq((x - self.start) % st, 0)))
+
+    def __iter__(self):
+        return builtins.iter(self.real())
+
+    def __len__(self):
+        return builtins.len(self.real())
+
+    def __getitem__(self, k):
+        return self.real()[k]
+
+    def __reversed__(self):
+        return builtins.reversed(self.real())
+
+    def __eq__(self, o):
+        return self.real() == (o.real() if builtins.isinstance(o, RangeLike) else o)
+
+    def __hash__(self):
+        return builtins.hash(self.real())
+
+    def __repr__(self):
+        return 'range(%s, %s, %s)' % (self.start, self.stop, self.step)
+
+    def index(self, v):
+        return self.real().index(v)
+
+    def count(self, v):
+        return self.real().count(v)
+
+
 def sh_range(*a):
-    """range() with a symbolic bound: the feasible values are enumerated (forks; exact)"""
-    if any(isinstance(x, SInt) for x in a):
-        ex = core.cur()
-        a = [ex.concretize(x, limit=64) if isinstance(x, SInt) else x for x in a]
-    return builtins.range(*a)
+    """range(): membership of a symbolic integer is one formula; a symbolic bound is enumerated when the range is iterated (forks; exact)"""
+    return RangeLike(*a)
 
 
 def sh_min(*a, **k):
